@@ -264,7 +264,7 @@ func paramThrough(v ssa.Value) *ssa.Parameter {
 // the receiver and no package-level variable, so concurrent requests share only read-only state.
 func ruleStateless(c *Ctx, rule string, root *ssa.Function) {
 	r := c.Run
-	r.Rule(rule, "the handler and its callees write no field of the handler (receiver) and no package-level variable")
+	r.Rule(rule, "the root function and its callees write no field of the receiver and no package-level variable (results depend on the arguments only, concurrent calls share read-only state)")
 	if root == nil {
 		r.Unknown(rule, "root", "", "handler function present", "missing")
 		return
